@@ -149,6 +149,14 @@ impl ISecureFramer for LengthPrefixedFramer {
   fn write_msg_multipart(&mut self, msgs: FrameBatch) -> Result<Bytes, ZmqError> {
     let plaintext = self.framer.frame_contiguous(&[msgs])?;
     let ciphertext = self.cipher.encrypt(&plaintext)?;
+    // The record length prefix is 16 bits: refuse a record the peer could not delimit
+    // instead of truncating its length (which would desynchronise the stream).
+    if ciphertext.len() > u16::MAX as usize {
+      return Err(ZmqError::EncryptionError(format!(
+        "encrypted record of {} bytes exceeds the 65535-byte record limit",
+        ciphertext.len()
+      )));
+    }
     let mut out = BytesMut::with_capacity(2 + ciphertext.len());
     out.put_u16(ciphertext.len() as u16);
     out.extend_from_slice(&ciphertext);
@@ -158,6 +166,14 @@ impl ISecureFramer for LengthPrefixedFramer {
   fn write_msg_batch(&mut self, batch: &[FrameBatch]) -> Result<Bytes, ZmqError> {
     let plaintext = self.framer.frame_contiguous(batch)?;
     let ciphertext = self.cipher.encrypt(&plaintext)?;
+    // The record length prefix is 16 bits: refuse a record the peer could not delimit
+    // instead of truncating its length (which would desynchronise the stream).
+    if ciphertext.len() > u16::MAX as usize {
+      return Err(ZmqError::EncryptionError(format!(
+        "encrypted record of {} bytes exceeds the 65535-byte record limit",
+        ciphertext.len()
+      )));
+    }
     let mut out = BytesMut::with_capacity(2 + ciphertext.len());
     out.put_u16(ciphertext.len() as u16);
     out.extend_from_slice(&ciphertext);
